@@ -205,9 +205,10 @@ def _(m, callee, args):
     return ()
 
 
-@model(r'^core::slice::<impl \[.*\]>::iter$')
+@model(r'slice::<impl \[.*\]>::iter$')
 def _(m, callee, args):
-    return PyIter('slice', items=deref_all(m, args[0]).items, pos=0)
+    v = deref_all(m, args[0])
+    return PyIter('slice', items=v.items if hasattr(v, 'items') else list(v), pos=0)
 
 
 @model(r'^<std::slice::Iter<.*> as Iterator>::map::<')
@@ -306,6 +307,17 @@ def _(m, callee, args):
     v = deref_all(m, args[0])
     if isinstance(v, Enum) and v.name in ('Borrowed', 'Owned'):
         v = deref_all(m, v.fields[0])
+    if isinstance(v, tuple) and len(v) == 2 and v[0] == 'display':       # std::path::Display
+        v = v[1]
+    t = re.search(r'new_display::<&*(.*)>$', callee)
+    if t and re.fullmatch(r'(usize|u8|u16|u32|u64|u128|isize|i8|i16|i32|i64|i128)', t.group(1)):
+        if is_sym(v):
+            raise Unsupported('Display of a symbolic integer')
+        return ('fmtarg', RStr([ord(c) for c in str(v)]), 'num', '')
+    elif t and t.group(1) == 'bool':
+        if is_sym(v):
+            raise Unsupported('Display of a symbolic bool')
+        v = RStr([ord(c) for c in ('true' if v else 'false')])
     return ('fmtarg', v)
 
 
@@ -334,18 +346,54 @@ def render_fmt(m, a):
             n_ = b[i + 1] | (b[i + 2] << 8)          # long literal piece: 0x80, u16 length (little endian), bytes
             out.extend(b[i + 3:i + 3 + n_])
             i += 3 + n_
-        elif t == 0xC0:
-            x = fa[argi][1]
+        elif t >= 0xC0:
+            # placeholder; option fields follow the first byte when its low bits are set (library/core/src/fmt/mod.rs)
+            flags, width, prec = 0x20 | (3 << 29), None, None
+            i += 1
+            if t & 1:
+                flags = b[i] | (b[i + 1] << 8) | (b[i + 2] << 16) | (b[i + 3] << 24)
+                i += 4
+            if t & 2:
+                width = b[i] | (b[i + 1] << 8)
+                i += 2
+            if t & 4:
+                prec = b[i] | (b[i + 1] << 8)
+                i += 2
+            if t & 8:
+                argi = b[i] | (b[i + 1] << 8)
+                i += 2
+            if t & 16 or t & 32:
+                raise Unsupported('dynamic width / precision in a format string')
+            arg = fa[argi]
+            x = arg[1]
+            numeric = len(arg) > 2 and arg[2] == 'num'
             if isinstance(x, tuple) and x and x[0] == 'tokens':
-                out.append(ord('~'))           # Display of a TokenStream: only ever printed into a warning
+                piece = [ord('~')]           # Display of a TokenStream: only ever printed into a warning
             elif isinstance(x, RStr):
-                out.extend(x.cs)
+                piece = list(x.cs)
             elif isinstance(x, int) or is_sym(x):
-                out.append(x)            # char
+                piece = [x]              # char
             else:
                 raise Unsupported(f'Display of {x!r}')
+            prefix = [ord(c) for c in arg[3]] if numeric and len(arg) > 3 and (flags & (1 << 23)) else []
+            if prec is not None and not numeric:
+                piece = piece[:prec]
+            total = len(prefix) + len(piece)
+            if width is not None and total < width:
+                pad = width - total
+                fill, align = flags & 0x1FFFFF, (flags >> 29) & 3
+                if numeric and flags & (1 << 24):
+                    sign = piece[:1] if piece[:1] == [45] else []
+                    piece = sign + prefix + [48] * pad + piece[len(sign):]
+                    prefix = []
+                else:
+                    if align == 3:
+                        align = 1 if numeric else 0
+                    lp = {0: 0, 1: pad, 2: pad // 2}[align]
+                    piece = [fill] * lp + prefix + piece + [fill] * (pad - lp)
+                    prefix = []
+            out.extend(prefix + piece)
             argi += 1
-            i += 1
         else:
             raise Unsupported(f'fmt template opcode {t:#x}')
     return out
@@ -390,7 +438,7 @@ def _(m, callee, args):
     raise Panic(msg)
 
 
-@model(r'^core::slice::<impl \[.*\]>::last$')
+@model(r'slice::<impl \[.*\]>::last$')
 def _(m, callee, args):
     v = deref_all(m, args[0])
     items = v.items if isinstance(v, RVec) else v
@@ -399,7 +447,7 @@ def _(m, callee, args):
     return Enum(1, [ValRef(items[-1])], 'Some')
 
 
-@model(r'^core::slice::<impl \[.*\]>::first$')
+@model(r'slice::<impl \[.*\]>::first$')
 def _(m, callee, args):
     v = deref_all(m, args[0])
     items = v.items if isinstance(v, RVec) else v
@@ -408,7 +456,7 @@ def _(m, callee, args):
     return Enum(1, [ValRef(items[0])], 'Some')
 
 
-@model(r'^core::slice::<impl \[.*\]>::(len|is_empty)$|^Vec::<.*>::len$')
+@model(r'slice::<impl \[.*\]>::(len|is_empty)$|^Vec::<.*>::len$')
 def _(m, callee, args):
     v = deref_all(m, args[0])
     items = v.items if isinstance(v, RVec) else v
